@@ -34,6 +34,9 @@ type Exporter struct {
 	tree   *ImmutableTree
 	ch     chan *ExportNode
 	cancel context.CancelFunc
+	// err is the traversal error, if any. It is written by the export goroutine
+	// before ch is closed and only read after ch has been observed closed.
+	err error
 }
 
 // NewExporter creates a new Exporter. Callers must call Close() when done.
@@ -61,7 +64,18 @@ func newExporter(tree *ImmutableTree) (*Exporter, error) {
 
 // export exports nodes
 func (e *Exporter) export(ctx context.Context) {
-	e.tree.root.traversePost(e.tree, true, func(node *Node) bool {
+	defer close(e.ch)
+
+	t := e.tree.root.newTraversal(e.tree, nil, nil, true, false, true)
+	for {
+		node, err := t.next()
+		if err != nil {
+			e.err = err
+			return
+		}
+		if node == nil {
+			return
+		}
 		exportNode := &ExportNode{
 			Key:     node.key,
 			Value:   node.value,
@@ -71,18 +85,20 @@ func (e *Exporter) export(ctx context.Context) {
 
 		select {
 		case e.ch <- exportNode:
-			return false
 		case <-ctx.Done():
-			return true
+			return
 		}
-	})
-	close(e.ch)
+	}
 }
 
 // Next fetches the next exported node, or returns ExportDone when done.
+// If the traversal of the tree failed, the error is returned instead of ExportDone.
 func (e *Exporter) Next() (*ExportNode, error) {
 	if exportNode, ok := <-e.ch; ok {
 		return exportNode, nil
+	}
+	if e.err != nil {
+		return nil, e.err
 	}
 	return nil, ErrorExportDone
 }
